@@ -588,6 +588,37 @@ func matchCase(t *engine.T, cur []variant, pv variant, idNames []string) *engine
 			} else if base != obs {
 				viol = engine.Violate("match-order-dependence", "", "perm %v (probe id %q) gives %s, identity order with probe id \"probe\" gives %s", p, probeID, obs, base)
 			}
+			// the probe IS a member of the list (the same object, not a copy): the rule is the same rule
+			identity := true
+			for i, x := range p {
+				identity = identity && i == x
+			}
+			if probeVariant == 0 && viol == nil && !ambiguous && identity {
+				for _, member := range nl.Nodes {
+					g2, e2 := nl.GetMatchingNode(member)
+					w2 := refMatch(nl.Nodes, member)
+					t.Transitions(1)
+					if !w2.distinctH {
+						continue
+					}
+					t.Validated(1)
+					o2, x2 := "nil", "nil"
+					if e2 != nil {
+						o2 = "ambiguous"
+					} else if g2 != nil {
+						o2 = origin[g2]
+					}
+					if w2.err {
+						x2 = "ambiguous"
+					} else if w2.node != nil {
+						x2 = origin[w2.node]
+					}
+					if o2 != x2 {
+						viol = engine.Violate("match-rule", "probe-is-member", "perm %v: GetMatchingNode(list member %s itself) gives %s, documented rule gives %s", p, origin[member], o2, x2)
+						return
+					}
+				}
+			}
 		})
 	}
 	if viol != nil {
